@@ -88,14 +88,16 @@ def child() -> None:
 
 def main() -> int:
     runs = []
-    for _ in range(2):
-        env = dict(os.environ, PYTHONHASHSEED="0", HS_ROOT=ROOT)
-        p = subprocess.run([sys.executable, os.path.abspath(__file__), "--child"],
-                           env=env, capture_output=True, text=True, check=False)
+    procs = [subprocess.Popen([sys.executable, os.path.abspath(__file__), "--child"],
+                              env=dict(os.environ, PYTHONHASHSEED="0", HS_ROOT=ROOT),
+                              stdout=subprocess.PIPE, stderr=subprocess.PIPE, text=True)
+             for _ in range(2)]  # fresh interpreters, started concurrently
+    for p in procs:
+        out, err = p.communicate()
         if p.returncode != 0:
-            print(p.stderr)
+            print(err)
             return 2
-        runs.append(json.loads(p.stdout.strip().splitlines()[-1]))
+        runs.append(json.loads(out.strip().splitlines()[-1]))
     bad = False
     for k in runs[0]:
         same = runs[0][k] == runs[1][k]
